@@ -440,7 +440,10 @@ impl Prop for C12 {
             .collect();
         c.eof = rng.chance(2, 3);
         c.eof_fds = if c.eof && rng.chance(1, 3) { rng.range(1, 3) as u16 } else { 0 };
-        c.drop_mode = rng.below(2) as u8;
+        // 0 = pop after every read, keep the files; 1 = pop after every read, drop at once;
+        // 2 = pop only at the end (the owner calls try_read again before popping)
+        c.drop_mode = rng.below(3) as u8;
+        c.use_fd0 = rng.chance(1, 400);
         c.to_json()
     }
     fn exec(&self, case: &J, st: &mut Stats) -> Result<RunOut, String> {
@@ -453,6 +456,15 @@ impl Prop for C12 {
         }
         let len = case.stream.len();
         let sched: &[gen::SOp] = case.scheds.first().map(|s| s.as_slice()).unwrap_or(&[]);
+        // descriptor numbers are process-wide: a run that uses number 0 has the table for itself
+        let (_shared, _exclusive);
+        if case.use_fd0 {
+            _exclusive = Some(crate::fds::FD0_LOCK.write().unwrap_or_else(|e| e.into_inner()));
+            _shared = None;
+        } else {
+            _shared = Some(crate::fds::FD0_LOCK.read().unwrap_or_else(|e| e.into_inner()));
+            _exclusive = None;
+        }
         let mut conn = Conn::new(case.stream.clone(), case.limit);
         let mut cur = SchedCursor::new(sched);
         let mut pipes: Vec<Pipe> = Vec::new(); // in arrival order
@@ -464,6 +476,9 @@ impl Prop for C12 {
         let mut step = 0;
         let mut result: Option<Violation> = None;
         let mut dropped_upto = 0usize; // pipes [0, dropped_upto) belong to dropped requests
+        let mut claims: std::collections::VecDeque<usize> = std::collections::VecDeque::new();
+        let mut claimed = 0usize;
+        let mut done_before = 0usize;
         'run: loop {
             let pos0 = conn.pos();
             let (op, is_eof) = match cur.next(pos0, len) {
@@ -489,9 +504,24 @@ impl Prop for C12 {
                 _ => 0,
             };
             let mut new_pipes = Vec::new();
-            for _ in 0..want.min(253) {
+            for i in 0..want.min(253) {
                 match make_pipe() {
-                    Ok((p, wr)) => {
+                    Ok((p, mut wr)) => {
+                        // descriptor numbers are the kernel's choice: now and then the lowest free
+                        // number is 0 (a process that closed stdin); the number must not matter
+                        if i == 0 && case.use_fd0 {
+                            // SAFETY: plain fcntl on a descriptor we own.
+                            let low = unsafe { libc::fcntl(wr, libc::F_DUPFD_CLOEXEC, 0) };
+                            if low == 0 {
+                                // SAFETY: ours.
+                                unsafe { libc::close(wr) };
+                                wr = 0;
+                                st.probe("descriptor_number_zero_passed");
+                            } else if low > 0 {
+                                // SAFETY: ours.
+                                unsafe { libc::close(low) };
+                            }
+                        }
                         conn.sh.borrow_mut().fd_pool.push(wr);
                         new_pipes.push(p);
                     }
@@ -531,7 +561,23 @@ impl Prop for C12 {
                 st.probe_n("descriptors_passed", given as u64);
             }
             pipes.extend(new_pipes);
-            let popped = conn.pop_all();
+            // which requests did this read complete (reference model)? The first of them owns
+            // everything that arrived and is not yet owned.
+            let done_now = m.request_ends.iter().filter(|&&e| e <= conn.pos()).count();
+            for k in done_before..done_now {
+                if k == done_before {
+                    claims.push_back(pipes.len() - claimed);
+                    claimed = pipes.len();
+                } else {
+                    claims.push_back(0);
+                }
+            }
+            done_before = done_now;
+            let late = case.drop_mode == 2;
+            let popped = if late && !is_eof { Vec::new() } else { conn.pop_all() };
+            if late && !popped.is_empty() {
+                st.probe("requests_popped_late");
+            }
             sig.u(popped.len() as u64);
             sig.u(given.min(9) as u64);
             if given > 0 && (popped.is_empty() || popped.len() >= 2 || is_eof) {
@@ -550,7 +596,8 @@ impl Prop for C12 {
             }
             for (k, (_obs, files)) in popped.into_iter().enumerate() {
                 // expected: the first completing request takes everything that arrived and was not yet delivered
-                let exp_count = if k == 0 { pipes.len() - delivered } else { 0 };
+                let _ = k;
+                let exp_count = claims.pop_front().unwrap_or(0);
                 if files.len() != exp_count {
                     result = Some(Violation::new(
                         "C12:wrong-descriptor-count",
@@ -609,6 +656,32 @@ impl Prop for C12 {
                 break;
             }
         }
+        // late pop without an EOF step: verify what is still queued
+        if result.is_none() {
+            for (_obs, files) in conn.pop_all() {
+                let exp_count = claims.pop_front().unwrap_or(0);
+                if files.len() != exp_count {
+                    result = Some(Violation::new(
+                        "C12:wrong-descriptor-count",
+                        step,
+                        format!("a request popped after further reads carries {} descriptor(s); {} had arrived by the read that completed it", files.len(), exp_count),
+                    ));
+                    break;
+                }
+                let mut bad = false;
+                for (j, f) in files.iter().enumerate() {
+                    if ino_of(f.as_raw_fd()) != pipes[delivered + j].ino {
+                        bad = true;
+                    }
+                }
+                if bad {
+                    result = Some(Violation::new("C12:wrong-descriptor-identity", step, "descriptor order or identity wrong in a request popped late".into()));
+                    break;
+                }
+                delivered += files.len();
+                kept.push((delivered, files));
+            }
+        }
         // drop everything: all pipes must reach EOF
         drop(kept);
         let pending_with_conn = pipes.len() - delivered;
@@ -630,6 +703,11 @@ impl Prop for C12 {
             }
         }
         drop(sh);
+        if case.use_fd0 {
+            // a library that leaked descriptor 0 must not poison later runs (we hold the table exclusively)
+            // SAFETY: number 0 can only be the descriptor this run handed out, or already closed.
+            unsafe { libc::close(0) };
+        }
         Ok(RunOut { violation: result, nontrivial, sig: sig.get(), trace_hash: sig.get() })
     }
     fn shrink(&self, case: &J) -> Vec<J> {
